@@ -181,6 +181,7 @@ pub fn check_mode(c: &Case, ctx: &mut Ctx, id: &str, pow2: bool, sign_only: bool
     let mut win: Vec<RawBar> = Vec::with_capacity(cap);
     for i in 0..c.len {
         let bar = if bars_kind { gen.bar() } else { RawBar::flat(gen.next(), 0.0) };
+        crate::tele::step(&mut ind, &cfg);
         let out = if bars_kind { ind.next_bar(&bar) } else { ind.next_scalar(bar.c) };
         let t = i + 1;
         if ring.len() < cap {
@@ -423,6 +424,9 @@ pub fn run(g: &mut Global) {
     );
     let ml = g.tier.pick(60_000usize, 400_000usize);
     g.random("random", g.tier.pick(480, 4000), &move || strategy(ml), &check);
+    // identity events (tele.rs): at one or two steps the instance is replaced by its clone, by a used instance
+    // (same or longer periods) that clone_from()s it, or by its serde round trip; nothing may change
+    g.random("events", g.tier.pick(160, 1200), &move || crate::tele::wrap(strategy(ml / 2)), &|t: &crate::tele::TCase<Case>, ctx: &mut Ctx| crate::tele::check_wrapped(t, ctx, t.case.len, t.case.n, check));
 }
 
 #[cfg(test)]
